@@ -83,6 +83,33 @@ def _lock(name):
     return fh
 
 
+_INUSE = []     # shared locks on the scratch builds this process uses (held until exit)
+
+
+def _hold(dest):
+    try:
+        fh = open(os.path.join(dest, '.inuse'), 'a')
+        fcntl.flock(fh, fcntl.LOCK_SH)
+        _INUSE.append(fh)
+    except OSError:
+        pass
+
+
+def _evictable(d):
+    """a scratch build may be removed only if no running check holds it"""
+    try:
+        fh = open(os.path.join(d, '.inuse'), 'a')
+    except OSError:
+        return True
+    try:
+        fcntl.flock(fh, fcntl.LOCK_EX | fcntl.LOCK_NB)
+        fh.close()
+        return True
+    except OSError:
+        fh.close()
+        return False
+
+
 def build_impl(variant='plain', keep=2):
     """Build /repo's current working tree in a scratch directory; returns its path.
     Keyed by the content hash of the sources, so an edited tree is always rebuilt."""
@@ -94,12 +121,14 @@ def build_impl(variant='plain', keep=2):
     try:
         if os.path.exists(os.path.join(dest, '.ok')):
             os.utime(dest, None)
+            _hold(dest)
             return dest
         # evict old builds (keep the most recent few; this one may flip between clean/mutated)
         olds = sorted([d for d in glob.glob(os.path.join(root, '*-' + variant)) if os.path.isdir(d)],
                       key=lambda d: os.path.getmtime(d))
         for d in olds[:max(0, len(olds) - (keep - 1))]:
-            shutil.rmtree(d, ignore_errors=True)
+            if _evictable(d):
+                shutil.rmtree(d, ignore_errors=True)
         shutil.rmtree(dest, ignore_errors=True)
         t = Timer()
         cflags, reconf = VARIANTS[variant]
@@ -127,6 +156,7 @@ def build_impl(variant='plain', keep=2):
             raise BuildFailed('library build failed:\n' + tail)
         open(os.path.join(dest, '.ok'), 'w').write('%s %s %.1fs\n' % (th, variant, t.s()))
         log('[S1] built %s variant of tree %s in %.1fs' % (variant, th, t.s()))
+        _hold(dest)
         return dest
     finally:
         lk.close()
